@@ -95,7 +95,8 @@ impl JsrMetadataStore {
     let specifier = services
       .jsr_url_provider
       .url()
-      .join(&format!("{}/meta.json", package_name))
+      // "./": the package name is a path, never a URL reference of its own
+      .join(&format!("./{}/meta.json", package_name))
       .unwrap();
     let fut = self.load_data(
       specifier,
@@ -135,7 +136,7 @@ impl JsrMetadataStore {
       .jsr_url_provider
       .url()
       .join(&format!(
-        "{}/{}_meta.json",
+        "./{}/{}_meta.json",
         package_nv.name, package_nv.version
       ))
       .unwrap();
